@@ -82,12 +82,17 @@ pub enum Root {
     CrashRemovedAtA,
     /// Partition, and A has removed X (and B) while X kept heartbeating with B
     PartitionRemovedAtA,
+    /// X stays up but only talks to A (B only talks to A as well): A is the hub
+    Star,
+    /// Star, then: B->A (B tells A all it knows), tick 5s, B->A twice, A evaluates: at A, B is live and X is dead
+    StarBLiveXDead,
 }
 
 impl Root {
     fn prefix(self) -> Vec<Act> {
         match self {
-            Root::Crash | Root::Partition => vec![],
+            Root::Crash | Root::Partition | Root::Star => vec![],
+            Root::StarBLiveXDead => vec![Act::Hs(1, 0), Act::Tick5, Act::Hs(1, 0), Act::Hs(1, 0), Act::Eval(0)],
             Root::CrashQuarantined => vec![Act::Tick5, Act::Eval(0), Act::Eval(1), Act::Tick11],
             Root::CrashRemovedAtA => vec![Act::Tick5, Act::Eval(0), Act::Eval(1), Act::Tick11, Act::Tick11, Act::Eval(0)],
             Root::PartitionRemovedAtA => vec![Act::Tick5, Act::Hs(2, 1), Act::Eval(0), Act::Eval(1), Act::Tick11, Act::Hs(2, 1), Act::Tick11, Act::Hs(2, 1), Act::Eval(0)],
@@ -99,6 +104,8 @@ impl Root {
             "CrashQuarantined" => Root::CrashQuarantined,
             "CrashRemovedAtA" => Root::CrashRemovedAtA,
             "PartitionRemovedAtA" => Root::PartitionRemovedAtA,
+            "Star" => Root::Star,
+            "StarBLiveXDead" => Root::StarBLiveXDead,
             _ => Root::Crash,
         }
     }
@@ -494,6 +501,10 @@ pub fn alphabet(root: Root) -> Vec<Act> {
         v.push(Act::Hs(2, 1));
         v.push(Act::Hs(1, 2));
     }
+    if root == Root::Star || root == Root::StarBLiveXDead {
+        v.push(Act::Hs(2, 0));
+        v.push(Act::Hs(0, 2));
+    }
     v
 }
 
@@ -516,7 +527,7 @@ pub fn run_sequence(root: Root, predicate: bool, props: &[&'static str], seq: &[
 pub fn explore(root: Root, predicate: bool, props: &[&'static str], depth: usize, deadline: Instant) -> Part {
     let mut part = Part::new(&format!("membership/{:?}{}(depth<={depth})", root, if predicate { "+predicate" } else { "" }));
     let alpha = alphabet(root);
-    part.rule = format!("three real nodes A, B, X (phi 2, intervals 1s/2s, dead-node grace 20s); deterministic warm-up of 4 gossip rounds makes everyone live everywhere, X's last write reaches B only; then {}; every sequence of length <= {depth} over {{tick 5s, tick 11s, handshake A->B, B->A, evaluate A, evaluate B, replay one of three SYNs captured during warm-up to A, B writes READY=false/true{}}} is executed from the root with the oracles on every step (adjacent actions on disjoint nodes are explored in one order only); non-trivial = sequences in which a member was quarantined, removed or re-advertised", match root { Root::Crash => "X crashes", Root::Partition => "X stays up but only talks to B", Root::CrashQuarantined => "X crashes and (tick 5s, A and B evaluate, tick 11s) X is quarantined at both survivors", Root::CrashRemovedAtA => "X crashes and (tick 5s, A and B evaluate, tick 11s, tick 11s, A evaluates) A has removed X while B still advertises it", Root::PartitionRemovedAtA => "X stays up but only talks to B, and after 27s without any contact A has removed X (and B) while X kept heartbeating with B" }, if root == Root::Partition || root == Root::PartitionRemovedAtA { ", handshake X->B, B->X" } else { "" });
+    part.rule = format!("three real nodes A, B, X (phi 2, intervals 1s/2s, dead-node grace 20s); deterministic warm-up of 4 gossip rounds makes everyone live everywhere, X's last write reaches B only; then {}; every sequence of length <= {depth} over {{tick 5s, tick 11s, handshake A->B, B->A, evaluate A, evaluate B, replay one of three SYNs captured during warm-up to A, B writes READY=false/true{}}} is executed from the root with the oracles on every step (adjacent actions on disjoint nodes are explored in one order only); non-trivial = sequences in which a member was quarantined, removed or re-advertised", match root { Root::Crash => "X crashes", Root::Partition => "X stays up but only talks to B", Root::CrashQuarantined => "X crashes and (tick 5s, A and B evaluate, tick 11s) X is quarantined at both survivors", Root::CrashRemovedAtA => "X crashes and (tick 5s, A and B evaluate, tick 11s, tick 11s, A evaluates) A has removed X while B still advertises it", Root::PartitionRemovedAtA => "X stays up but only talks to B, and after 27s without any contact A has removed X (and B) while X kept heartbeating with B", Root::Star => "X stays up but only talks to A", Root::StarBLiveXDead => "X stays up but only talks to A, and (B->A, tick 5s, B->A twice, A evaluates) A holds B live and X dead" }, if root == Root::Partition || root == Root::PartitionRemovedAtA { ", handshake X->B, B->X" } else if root == Root::Star || root == Root::StarBLiveXDead { ", handshake X->A, A->X" } else { "" });
     part.bounds = json!({"alphabet": alpha.iter().map(|a| a.json()).collect::<Vec<_>>(), "depth": depth, "grace_ms": GRACE_MS});
     let capped = std::sync::atomic::AtomicBool::new(false);
     let prefixes: Vec<Vec<Act>> = alpha.iter().flat_map(|a| alpha.iter().map(move |b| vec![*a, *b])).collect();
@@ -704,12 +715,11 @@ pub fn run(property: &'static str, tier: Tier, started: Instant) -> Vec<Part> {
     let budget = tier.pick(55u64, 3500u64);
     let mut parts = vec![];
     let mut plan: Vec<(Root, bool, usize)> = match property {
-        "C13" => vec![(Root::Crash, false, depth), (Root::Crash, true, depth), (Root::Partition, true, depth), (Root::Partition, false, depth), (Root::CrashRemovedAtA, true, depth2)],
+        "C13" => vec![(Root::Crash, false, depth), (Root::Crash, true, depth), (Root::Partition, true, depth), (Root::Partition, false, depth), (Root::CrashRemovedAtA, true, depth2), (Root::Star, false, depth), (Root::StarBLiveXDead, false, depth2), (Root::StarBLiveXDead, true, depth2)],
         _ => vec![(Root::Crash, false, depth), (Root::Partition, false, depth), (Root::CrashQuarantined, false, depth2), (Root::CrashRemovedAtA, false, depth2), (Root::PartitionRemovedAtA, false, depth2 - 1)],
     };
     if tier == Tier::Quick && property == "C13" {
-        plan.truncate(4);
-        plan[3] = (Root::CrashRemovedAtA, true, depth2);
+        plan = vec![(Root::Crash, false, depth), (Root::Crash, true, depth), (Root::Partition, true, depth), (Root::CrashRemovedAtA, true, depth2 - 1), (Root::StarBLiveXDead, false, depth2), (Root::StarBLiveXDead, true, depth2 - 1)];
     }
     if tier == Tier::Quick && property == "C01" {
         plan = vec![(Root::Crash, false, 4), (Root::CrashQuarantined, false, 4), (Root::PartitionRemovedAtA, false, 3)];
